@@ -174,11 +174,40 @@ pub fn check_live(c: &crate::props::c01::Case) -> Verdict {
     if !t.wait_settled(&bt.spec) {
         return Verdict::Inconclusive("target did not settle".into());
     }
-    let opts = opts_of(c, &bt, &t);
-    let mut w = make_writer(t.pid, &opts);
-    let mut dest = Dest::new(vec![], 0);
-    let out = with_watchdog(30.0, || run_dump(&mut w, &mut dest));
+    let mut opts = opts_of(c, &bt, &t);
     let mut classes = vec![];
+    // "any caller configuration": further choices derived deterministically from the case
+    let h = fp_json(c);
+    // the stop timeout
+    match h % 7 {
+        0 => opts.stop_timeout_ms = Some(0),
+        1 => opts.stop_timeout_ms = Some(u64::MAX), // => Duration::MAX
+        2 => opts.stop_timeout_ms = Some(u64::MAX - 1),
+        _ => {}
+    }
+    if h % 7 <= 2 {
+        classes.push("hostile-stop-timeout".into());
+    }
+    // a user mapping whose extent reaches or wraps the top of the address space
+    if (h >> 8) % 5 == 0 {
+        let size = [PAGE, 0x10_0000, u64::MAX / 2, u64::MAX][((h >> 12) % 4) as usize];
+        let start = [u64::MAX & !0xfff, u64::MAX - 0x10_0000 + 1, 1 << 63, 0, 0x1000, 0x10_0000_0000][((h >> 16) % 6) as usize];
+        opts.user_mappings.push(UserMap { start, size, name: Some("/wrap/lib.so".into()), identifier: vec![1, 2, 3, 4], offset: 0, perms: 5 });
+        classes.push("user-mapping-at-top-of-address-space".into());
+    }
+    // the destination: not empty / positioned after existing content
+    let (prefill, pos) = match (h >> 24) % 6 {
+        0 => (vec![0xeeu8; 1], 1),
+        1 => (vec![0xeeu8; 4096], 4096),
+        2 => (vec![0xeeu8; 5 << 20], 4 << 20),
+        _ => (vec![], 0),
+    };
+    if pos != 0 {
+        classes.push("destination-with-existing-content".into());
+    }
+    let mut w = make_writer(t.pid, &opts);
+    let mut dest = Dest::new(prefill, pos);
+    let out = with_watchdog(30.0, || run_dump(&mut w, &mut dest));
     match out {
         DumpOutcome::Ok(_) => classes.push("ok".to_string()),
         DumpOutcome::Err(e) => classes.push(format!("err:{}", e.split('(').next().unwrap_or(""))),
@@ -429,7 +458,7 @@ pub fn run(ctx: &mut LaneCtx) {
         SubSpec {
             name: "live-hostile",
             cases: (1_200, 40_000),
-            rule: "live targets (as C01) with emphasis on hostile values: crash-context rip/rsp and principal address from {0, 1, 4095, 2^47-8, 2^47, 0xffff800000000000, [vsyscall], top of the address space, unmapped, misaligned, inside stacks/mappings}, thread stack pointers in guard pages and holes, non-UTF-8 thread names, application memory lengths up to usize::MAX, all option combinations; oracle = dump returns Ok or Err within 30 s, no panic; non-trivial = at least one hostile value; distinct = hash of case",
+            rule: "live targets (as C01) with emphasis on hostile values: crash-context rip/rsp and principal address from {0, 1, 4095, 2^47-8, 2^47, 0xffff800000000000, [vsyscall], top of the address space, unmapped, misaligned, inside stacks/mappings}, thread stack pointers in guard pages and holes, non-UTF-8 thread names, application memory lengths up to usize::MAX, all option combinations, and hostile caller configuration (stop timeout 0 / Duration::MAX, a user mapping reaching or wrapping the top of the address space, a destination positioned after up to 4 MiB of existing content); oracle = dump returns Ok or Err within 30 s, no panic; non-trivial = at least one hostile value; distinct = hash of case",
             strategy: crate::props::c01::case_strategy(10).boxed(),
             max_shrink_iters: 150,
             log_current: true,
